@@ -362,8 +362,13 @@ def run(ck, facts, tier):
     # a built-in calendar that went through to_json/from_json or a pickle must still be that calendar: every stored field of the calendar types travels
     # unchanged (C16 S16.2/S16.3/S16.7 for the calendar types only)
     c16.run(ck, facts, tier, only_types=r"^calendars::calendar::")
-    with ck.restrict({"R06.0", "R06.2"}):
-        c06.run(ck, facts, tier)
+    if not getattr(ck, "_c06_c07_nested", False):          # (C06 includes R07.1/R07.2 of this module in turn)
+        ck._c06_c07_nested = True
+        try:
+            with ck.restrict({"R06.0", "R06.2", "R06.3"}):          # R06.3: a name is parsed piece by piece through get_calendar_by_name, every time
+                c06.run(ck, facts, tier)
+        finally:
+            ck._c06_c07_nested = False
     with ck.restrict({"R05.1", "R05.5", "R04.1", "R04.5"}):
         c05.run(ck, facts, tier)
     ck.not_decided[:], ck.trusted[:] = nd_, tb_
